@@ -78,21 +78,34 @@ struct TypeSet {
     taggedunions: HashMap<String, A2mlTypeSpec>,
     /// nesting depth of the type that is currently being parsed
     nesting: Cell<usize>,
+    /// number of type nodes that may still be copied by references to named types
+    expansion_budget: Cell<usize>,
 }
 
 /// Limit for the nesting depth of A2ML types, including the depth of referenced named types.
 /// The types are processed recursively; without a limit (damaged) input could exhaust the stack.
 const MAX_A2ML_NESTING: usize = 100;
 
+/// Limit for the total size of all copies of named types that are created by references.
+/// A reference to a named type copies the whole type, so a few lines of (damaged) input which
+/// reference each other repeatedly could otherwise expand to any size.
+const MAX_A2ML_EXPANSION: usize = 200_000;
+
 impl TypeSet {
-    // called before a named type is copied: check the nesting limit
+    // called before a named type is copied: check and update the nesting and size limits
     fn check_reference(&self, name: &str, typespec: &A2mlTypeSpec) -> Result<(), String> {
-        let (_, depth) = typespec.size_and_depth();
+        let (size, depth) = typespec.size_and_depth();
         if self.nesting.get() + depth > MAX_A2ML_NESTING {
             return Err(format!(
                 "the reference to type {name} is nested too deeply"
             ));
         }
+        if size > self.expansion_budget.get() {
+            return Err(format!(
+                "the types are too large after the reference to type {name} is resolved"
+            ));
+        }
+        self.expansion_budget.set(self.expansion_budget.get() - size);
         Ok(())
     }
 }
@@ -485,6 +498,7 @@ pub(crate) fn parse_a2ml(
         taggedstructs: HashMap::<String, A2mlTypeSpec>::new(),
         taggedunions: HashMap::<String, A2mlTypeSpec>::new(),
         nesting: Cell::new(0),
+        expansion_budget: Cell::new(MAX_A2ML_EXPANSION),
     };
 
     // at the top level the applicable grammar rule is
